@@ -57,6 +57,19 @@ var corpusE = []struct {
 	{"0,0", "J0,s0,A0,J1~", true},
 	{"0,10", "%sn,J0,s0,A0,J1,s1,A10,L1,l1,U10,J1@0~", true},
 	{"0,0", "J0,s0,Ej0,J1,s1,A0,L0~", true},
+	// round F — configuration order: the callbacks are assigned after muc.HandleClient(h) was handed to
+	// mux.New; they count from then on (invitations, occupant presences)
+	{"0", "%cl,Im,IbP,Id,J0,s0,A0,A0,Im,L0,l0,U0", false},
+	{"0,1", "%al,Ibm,J0,s0,A0,J1,s1,Ej1,A0:on110,IM,U0:cn301", false},
+	{"0", "%sl,IP,J0,s0,A0,A0", false},
+	// round F — one Client serving two live sessions (channel c on session c%2): the table is keyed
+	// by the occupant JID alone, so a second channel for it is refused whatever session it lives on,
+	// and the first keeps following the room
+	{"0,0", "%cm,J0,s0,A0,J1,U0,J1,s1,A0,L1,l1,U0", false},
+	{"0,0", "%am,J0,s0,A0,J1,A0,L0,l0,U0,J1,s1,A0,J0,U0", false},
+	{"0,10", "%cm,J0,s0,A0,J1,s1,A10,J0@10,J1@0,U10,A0,L0,l0,U0", false},
+	{"0,1", "%clm,J0,s0,A0,J1,s1,A1,Im,A0,A1,L1,l1,El1,U0", false},
+	{"0,0", "%cm,J0,s0,Ej0,J1,s1,A0,L0,l0,El0,K0,U0", false},
 	// a type='error' reply without an error element
 	{"0", "J0,s0,Ej0:0,A0,J0,s0,A0,L0,l0,El0:x0,A0,L0,l0,U0", false},
 	{"0", "%s,J0,Ej0:xw0,s0,J0,s0,A0,J0@10,s0,Ej0:p0,A0,A10,L0,El0:0,l0,U0", false},
@@ -120,6 +133,7 @@ func runOverlap(r *common.Run) int {
 		{[]int{0}, []int{10}, false, 4, ""},
 		{[]int{0, 0}, nil, false, 3, ""},
 		{[]int{0}, []int{10}, true, 3, "%a"},
+		{[]int{0, 0}, nil, false, 3, "%cm"}, // the two channels on two sessions of one Client
 	}
 	if r.Tier == "thorough" {
 		confs = []conf{
@@ -128,6 +142,7 @@ func runOverlap(r *common.Run) int {
 			{[]int{0, 0}, []int{10}, false, 4, ""},
 			{[]int{0, 10}, nil, true, 3, "%sn"},
 			{[]int{0}, []int{10}, false, 4, "%a"},
+			{[]int{0, 0}, []int{10}, false, 3, "%cm"},
 		}
 	}
 	n, pruned := 0, 0
